@@ -5,35 +5,35 @@ open VtlModel.Errors
 
 /-- _map_query_error (io/_execution.py) — falls through to the raw error -/
 def mapper0 : List Rule := [
-  -- line 78: 'vtl error 2-1-19-20' -> 2-1-19-20
+  -- line 79: 'vtl error 2-1-19-20' -> 2-1-19-20
   ⟨(.has [118, 116, 108, 32, 101, 114, 114, 111, 114, 32, 50, 45, 49, 45, 49, 57, 45, 50, 48]), [⟨2, 712, [164], false⟩]⟩,
-  -- line 83: 'vtl error 2-1-19-19' -> 2-1-19-19
+  -- line 84: 'vtl error 2-1-19-19' -> 2-1-19-19
   ⟨(.has [118, 116, 108, 32, 101, 114, 114, 111, 114, 32, 50, 45, 49, 45, 49, 57, 45, 49, 57]), [⟨2, 710, [164, 708, 709], false⟩]⟩,
-  -- line 93: 'vtl error 2-1-19-16' -> 2-1-19-16
+  -- line 94: 'vtl error 2-1-19-16' -> 2-1-19-16
   ⟨(.has [118, 116, 108, 32, 101, 114, 114, 111, 114, 32, 50, 45, 49, 45, 49, 57, 45, 49, 54]), [⟨2, 702, [164], false⟩]⟩,
-  -- line 98: 'vtl error 2-1-19-21' -> 2-1-19-21
+  -- line 99: 'vtl error 2-1-19-21' -> 2-1-19-21
   ⟨(.has [118, 116, 108, 32, 101, 114, 114, 111, 114, 32, 50, 45, 49, 45, 49, 57, 45, 50, 49]), [⟨2, 715, [655], false⟩]⟩,
-  -- line 102: 'vtl error 2-1-19-1' -> 2-1-19-1
+  -- line 103: 'vtl error 2-1-19-1' -> 2-1-19-1
   ⟨(.has [118, 116, 108, 32, 101, 114, 114, 111, 114, 32, 50, 45, 49, 45, 49, 57, 45, 49]), [⟨2, 653, [651, 44], false⟩]⟩,
-  -- line 106: 'cannot cast non-daily timeperiod to date' -> 2-1-5-1
+  -- line 107: 'cannot cast non-daily timeperiod to date' -> 2-1-5-1
   ⟨(.has [99, 97, 110, 110, 111, 116, 32, 99, 97, 115, 116, 32, 110, 111, 110, 45, 100, 97, 105, 108, 121, 32, 116, 105, 109, 101, 112, 101, 114, 105, 111, 100, 32, 116, 111, 32, 100, 97, 116, 101]), [⟨2, 235, [158, 159, 44], false⟩]⟩,
-  -- line 111: 'cannot cast timeinterval to date' -> 2-1-5-1
+  -- line 112: 'cannot cast timeinterval to date' -> 2-1-5-1
   ⟨(.has [99, 97, 110, 110, 111, 116, 32, 99, 97, 115, 116, 32, 116, 105, 109, 101, 105, 110, 116, 101, 114, 118, 97, 108, 32, 116, 111, 32, 100, 97, 116, 101]), [⟨2, 235, [158, 159, 44], false⟩]⟩,
-  -- line 116: 'cannot determine period for interval' -> 2-1-5-1
+  -- line 117: 'cannot determine period for interval' -> 2-1-5-1
   ⟨(.has [99, 97, 110, 110, 111, 116, 32, 100, 101, 116, 101, 114, 109, 105, 110, 101, 32, 112, 101, 114, 105, 111, 100, 32, 102, 111, 114, 32, 105, 110, 116, 101, 114, 118, 97, 108]), [⟨2, 235, [158, 159, 44], false⟩]⟩,
-  -- line 121: ('conversion' and ('timestamp' or 'date')) -> 2-1-19-8
+  -- line 122: ('conversion' and ('timestamp' or 'date')) -> 2-1-19-8
   ⟨(.and (.has [99, 111, 110, 118, 101, 114, 115, 105, 111, 110]) (.or (.has [116, 105, 109, 101, 115, 116, 97, 109, 112]) (.has [100, 97, 116, 101]))), [⟨2, 680, [665], false⟩]⟩,
-  -- line 130: 'vtl 2-1-15-6' -> 2-1-15-6
+  -- line 131: 'vtl 2-1-15-6' -> 2-1-15-6
   ⟨(.has [118, 116, 108, 32, 50, 45, 49, 45, 49, 53, 45, 54]), [⟨2, 456, [164], false⟩]⟩,
-  -- line 134: 'vtl 1-1-18-11' -> 1-1-18-11
+  -- line 135: 'vtl 1-1-18-11' -> 1-1-18-11
   ⟨(.has [118, 116, 108, 32, 49, 45, 49, 45, 49, 56, 45, 49, 49]), [⟨3, 494, [492, 493, 164], false⟩]⟩,
-  -- line 140: ('division by zero' or 'divide by zero') -> 2-1-3-1
+  -- line 141: ('division by zero' or 'divide by zero') -> 2-1-3-1
   ⟨(.or (.has [100, 105, 118, 105, 115, 105, 111, 110, 32, 98, 121, 32, 122, 101, 114, 111]) (.has [100, 105, 118, 105, 100, 101, 32, 98, 121, 32, 122, 101, 114, 111])), [⟨2, 220, [164], false⟩]⟩,
-  -- line 142: 'vtl error 2-1-3-1' -> 2-1-3-1
+  -- line 143: 'vtl error 2-1-3-1' -> 2-1-3-1
   ⟨(.has [118, 116, 108, 32, 101, 114, 114, 111, 114, 32, 50, 45, 49, 45, 51, 45, 49]), [⟨2, 220, [164], false⟩]⟩,
-  -- line 146: ('logarithm of zero' or 'logarithm of negative') -> 2-1-15-8
+  -- line 147: ('logarithm of zero' or 'logarithm of negative') -> 2-1-15-8
   ⟨(.or (.has [108, 111, 103, 97, 114, 105, 116, 104, 109, 32, 111, 102, 32, 122, 101, 114, 111]) (.has [108, 111, 103, 97, 114, 105, 116, 104, 109, 32, 111, 102, 32, 110, 101, 103, 97, 116, 105, 118, 101])), [⟨2, 460, [164, 44], false⟩]⟩,
-  -- line 150: 'cannot take logarithm of a negative number' -> 2-1-15-3
+  -- line 151: 'cannot take logarithm of a negative number' -> 2-1-15-3
   ⟨(.has [99, 97, 110, 110, 111, 116, 32, 116, 97, 107, 101, 32, 108, 111, 103, 97, 114, 105, 116, 104, 109, 32, 111, 102, 32, 97, 32, 110, 101, 103, 97, 116, 105, 118, 101, 32, 110, 117, 109, 98, 101, 114]), [⟨2, 450, [164, 44], false⟩]⟩
 ]
 
@@ -62,15 +62,15 @@ def mapper2 : List Rule := [
 def mappers : List (List Rule) := [mapper0, mapper1, mapper2]
 
 def dbSites : List DbSite := [
-  ⟨984, 985, 240, 3, 0⟩,  -- io/_execution.py:_build_dataset_fetch_select:240 .execute phase=fetch UNWRAPPED
-  ⟨984, 985, 265, 3, 0⟩,  -- io/_execution.py:_build_dataset_fetch_select:265 .fetchone phase=fetch UNWRAPPED
-  ⟨984, 986, 386, 5, 0⟩,  -- io/_execution.py:cleanup_scheduled_datasets:386 .execute phase=other UNWRAPPED
-  ⟨984, 986, 397, 5, 0⟩,  -- io/_execution.py:cleanup_scheduled_datasets:397 .execute phase=other UNWRAPPED
-  ⟨984, 986, 400, 5, 0⟩,  -- io/_execution.py:cleanup_scheduled_datasets:400 .execute phase=other UNWRAPPED
-  ⟨984, 987, 441, 3, 0⟩,  -- io/_execution.py:fetch_result:441 .execute phase=fetch UNWRAPPED
-  ⟨984, 987, 442, 3, 0⟩,  -- io/_execution.py:fetch_result:442 .fetchdf phase=fetch UNWRAPPED
-  ⟨984, 987, 474, 3, 0⟩,  -- io/_execution.py:fetch_result:474 .fetchdf phase=fetch UNWRAPPED
-  ⟨984, 988, 550, 1, 2⟩,  -- io/_execution.py:execute_queries:550 .execute phase=stmt _map_query_error
+  ⟨984, 985, 241, 3, 0⟩,  -- io/_execution.py:_build_dataset_fetch_select:241 .execute phase=fetch UNWRAPPED
+  ⟨984, 985, 266, 3, 0⟩,  -- io/_execution.py:_build_dataset_fetch_select:266 .fetchone phase=fetch UNWRAPPED
+  ⟨984, 986, 387, 5, 0⟩,  -- io/_execution.py:cleanup_scheduled_datasets:387 .execute phase=other UNWRAPPED
+  ⟨984, 986, 398, 5, 0⟩,  -- io/_execution.py:cleanup_scheduled_datasets:398 .execute phase=other UNWRAPPED
+  ⟨984, 986, 401, 5, 0⟩,  -- io/_execution.py:cleanup_scheduled_datasets:401 .execute phase=other UNWRAPPED
+  ⟨984, 987, 442, 3, 0⟩,  -- io/_execution.py:fetch_result:442 .execute phase=fetch UNWRAPPED
+  ⟨984, 987, 443, 3, 0⟩,  -- io/_execution.py:fetch_result:443 .fetchdf phase=fetch UNWRAPPED
+  ⟨984, 987, 475, 3, 0⟩,  -- io/_execution.py:fetch_result:475 .fetchdf phase=fetch UNWRAPPED
+  ⟨984, 988, 551, 1, 2⟩,  -- io/_execution.py:execute_queries:551 .execute phase=stmt _map_query_error
   ⟨981, 940, 70, 0, 0⟩,  -- io/_io.py:_validate_loaded_table:70 .fetchone phase=load UNWRAPPED
   ⟨981, 940, 81, 0, 0⟩,  -- io/_io.py:_validate_loaded_table:81 .execute phase=load UNWRAPPED
   ⟨981, 941, 98, 0, 4⟩,  -- io/_io.py:_normalize_time_period_columns:98 .execute phase=load <raise 0-3-1-6>
